@@ -284,20 +284,42 @@ theorem C05_selectWithin (I : Interval) (by_ v : Vec) :
     simp only [List.filterMap_cons, List.filter_cons]
     by_cases h : I.within p.1 = some true <;> simp [h, ih]
 
-/-- `-m obs -x fcst` (FromField): the aggregate is taken over the OBSERVATIONS of the cases where
-observation and forecast are both present and the FORECAST lies in the interval. -/
-theorem C05_fromfield_obs_by_fcst (agg : Vec → XR) (I : Interval) (obs fcst o g : Vec)
+/-- `-m obs -x fcst` (FromField), for EVERY aggregator (`r` = it raises on an empty array, as np.min
+and np.max do): the aggregate is taken over the OBSERVATIONS of the cases where observation and
+forecast are both present and the FORECAST lies in the interval; when no case is selected and the
+aggregator has no value for an empty array, the score is NaN. -/
+theorem C05_fromfield_obs_by_fcst (agg : Vec → XR) (r : Bool) (I : Interval) (obs fcst o g : Vec)
     (h : getCols [obs, fcst] = [o, g]) :
-    fromFieldSingle agg false true .fcst I obs fcst
-      = some (agg (((List.zip g o).filter fun p => I.within p.1 = some true).map (·.2))) := by
-  simp [fromFieldSingle, h, C05_selectWithin]
+    fromFieldSingle agg r true .fcst I obs fcst
+      = (let sel := ((List.zip g o).filter fun p => I.within p.1 = some true).map (·.2)
+         if sel.isEmpty && r then nan else agg sel) := by
+  simp only [fromFieldSingle, if_true, Bool.false_eq_true, if_false, h]
+  rw [C05_selectWithin]
 
 /-- `-m fcst -x obs`: forecasts of the cases whose observation lies in the interval. -/
-theorem C05_fromfield_fcst_by_obs (agg : Vec → XR) (I : Interval) (obs fcst g o : Vec)
+theorem C05_fromfield_fcst_by_obs (agg : Vec → XR) (r : Bool) (I : Interval) (obs fcst g o : Vec)
     (h : getCols [fcst, obs] = [g, o]) :
-    fromFieldSingle agg false false .obs I obs fcst
-      = some (agg (((List.zip o g).filter fun p => I.within p.1 = some true).map (·.2))) := by
-  simp [fromFieldSingle, h, C05_selectWithin]
+    fromFieldSingle agg r false .obs I obs fcst
+      = (let sel := ((List.zip o g).filter fun p => I.within p.1 = some true).map (·.2)
+         if sel.isEmpty && r then nan else agg sel) := by
+  simp only [fromFieldSingle, if_true, Bool.false_eq_true, if_false, h]
+  rw [C05_selectWithin]
+
+/-- a bin without cases under an aggregator that has no value for an empty array (min, max): NaN,
+for both metrics and both conditional axes -/
+theorem C05_fromfield_empty_bin (agg : Vec → XR) (isObs : Bool) (ax : CondAxis) (I : Interval) (obs fcst : Vec)
+    (hax : ax ≠ .none) (hI : ∀ x, I.within x ≠ some true) :
+    fromFieldSingle agg true isObs ax I obs fcst = nan := by
+  have hs : ∀ b v, selectWithin I b v = [] := by
+    intro b v
+    simp [C05_selectWithin, hI]
+  cases ax <;> cases isObs <;> simp_all [fromFieldSingle] <;> split <;> simp [hs]
+
+/-- the recorded witness (`single fcst min fcst 1/2:1:1:0 3/2,3,0 0,9/2,nan`: no forecast in [1/2, 1)),
+which used to end in ValueError, is NaN -/
+example : fromFieldSingle Vec.minimum true false .fcst ⟨fin (1/2), fin 1, true, false⟩
+    [fin (3/2), fin 3, fin 0] [fin 0, fin (9/2), nan] = nan := by
+  decide +kernel
 
 /-- obs/fcst-based metrics under `-x obs`: the metric of the valid pairs whose observation lies in
 the interval (both members restricted by the same selection). -/
